@@ -10,20 +10,21 @@ import time
 
 VERIF = os.path.dirname(os.path.dirname(os.path.abspath(__file__)))
 REPO = os.environ.get('VF_REPO', '/repo')
-BUILD = os.path.join(VERIF, 'build')
+BUILD = os.environ.get('VF_BUILD', os.path.join(VERIF, 'build'))
+REPO_BUILD = os.environ.get('VF_REPO_BUILD', '/repo/_build')   # the repository's own build (objects for native linking)
 sys.path.insert(0, os.path.join(VERIF, 'vf'))
 
 import ir_parse  # noqa: E402
 import ir2c      # noqa: E402
 
-INC = ['-I' + REPO + '/include', '-I' + REPO + '/_build', '-I' + VERIF + '/build/include',
+INC = ['-I' + REPO + '/include', '-I' + REPO_BUILD, '-I' + VERIF + '/build/include',
        '-I' + REPO + '/3rd-party/csparse', '-I' + REPO + '/3rd-party/gmtsph',
        '-isystem', '/usr/include/eigen3', '-I' + VERIF + '/vf', '-I' + REPO + '/src']
 DEFS = ['-DNDEBUG', '-DNLOPT_DLL', '-Dshared_EXPORTS', '-DEIGEN_DONT_VECTORIZE']
 CLANG_RAW = ['clang++-14', '-std=gnu++20', '-O1', '-Xclang', '-disable-llvm-passes', '-ffp-contract=off',
              '-fno-access-control', '-fno-threadsafe-statics', '-fno-builtin', '-S', '-emit-llvm', '-w'] + DEFS
 GXX = ['g++', '-std=gnu++20', '-O0', '-g0', '-fno-access-control', '-w', '-ffp-contract=off'] + DEFS
-LIBDIR = REPO + '/_build/RelWithDebInfo'
+LIBDIR = REPO_BUILD + '/RelWithDebInfo'
 
 
 class BuildError(Exception):
@@ -50,12 +51,12 @@ def ensure_dirs(kdir):
     inc = os.path.join(BUILD, 'include')
     os.makedirs(inc, exist_ok=True)
     # generated headers of the repo build, regenerated if _build is absent
-    if not os.path.exists(REPO + '/_build/gstlearn_export.hpp'):
+    if not os.path.exists(REPO_BUILD + '/gstlearn_export.hpp'):
         with open(inc + '/gstlearn_export.hpp', 'w') as f:
             f.write('#pragma once\n#define GSTLEARN_EXPORT\n#define GSTLEARN_NO_EXPORT\n'
                     '#define GSTLEARN_DEPRECATED __attribute__((__deprecated__))\n'
                     '#define GSTLEARN_TEMPLATE_EXPORT\n')
-    if not os.path.exists(REPO + '/_build/version.h'):
+    if not os.path.exists(REPO_BUILD + '/version.h'):
         with open(inc + '/version.h', 'w') as f:
             f.write('#pragma once\n#define GSTLEARN_VERSION "0.0.0"\n#define GSTLEARN_DATE "verif"\n')
 
@@ -304,8 +305,8 @@ def native_cpp(k, tier, kdir, sanitize=False):
                 sh(['objcopy'] + args + [tu_o])
     link = ['g++'] + san + objs + ['-o', exe]
     if k.get('link_lib', True):
-        link += [repo_archive(), REPO + '/_build/3rd-party/csparse/libcsparse.a',
-                 REPO + '/_build/3rd-party/gmtsph/libgmtsph.a', '-lnlopt', '-lgomp', '-lpthread',
+        link += [repo_archive(), REPO_BUILD + '/3rd-party/csparse/libcsparse.a',
+                 REPO_BUILD + '/3rd-party/gmtsph/libgmtsph.a', '-lnlopt', '-lgomp', '-lpthread',
                  '-Wl,--allow-multiple-definition']
     link += ['-lm'] + k.get('ldflags', [])
     sh(link)
@@ -316,7 +317,7 @@ def repo_archive():
     """thin archive over the object files of the repository's own build (everything that is
     not freshly compiled for a kernel is taken from there)"""
     a = os.path.join(BUILD, 'libgst_all.a')
-    objdir = REPO + '/_build/CMakeFiles/shared.dir'
+    objdir = REPO_BUILD + '/CMakeFiles/shared.dir'
     if not os.path.exists(a) or os.path.getmtime(a) < os.path.getmtime(objdir):
         objs = []
         for root, _, files in os.walk(objdir):
